@@ -145,3 +145,14 @@ def diagnostic_joins(fnode) -> tuple:
                 and isinstance(n.args[0], ast.GeneratorExp)):
             out.append(ast.unparse(n))
     return tuple(out)
+
+
+def list_indexed_last_in_store(fnode) -> str:
+    """the list `X` of the statement `<container>[X[-1]] = <value>`"""
+    for n in ast.walk(fnode):
+        if isinstance(n, ast.Assign) and len(n.targets) == 1 and isinstance(n.targets[0], ast.Subscript):
+            sl = n.targets[0].slice
+            if (isinstance(sl, ast.Subscript) and isinstance(sl.value, ast.Name) and isinstance(sl.slice, ast.UnaryOp)
+                    and isinstance(sl.slice.op, ast.USub) and isinstance(sl.slice.operand, ast.Constant) and sl.slice.operand.value == 1):
+                return sl.value.id
+    raise Untranslatable("role list_indexed_last_in_store() not found")
